@@ -99,6 +99,12 @@ let sched_cmd cmd tk = match cmd with
       | "DATA" -> let i = next_nat tk in let ot = next_z tk in let ps = next_list next_nat tk in
           run (DData (i, ot, ps, pairs_attr tk))
       | "SETDATA" -> let i = next_nat tk in let w = next_nat tk in let j = next_nat tk in let a = next_nat tk in let v = next_z tk in run (DSetData (i, w, j, a, v))
+      | "GETDATA" -> let i = next_nat tk in let j = next_nat tk in
+          (* an asynchronous get_data request of i towards j: the permission test of MosaikRemote._assert_async_requests,
+             which set_data shares; the state is not changed *)
+          (match dapply stat dstat (cur, dcur) (DSetData (i, nat_of_int 0, j, nat_of_int 0, z_of_int 0)) with
+           | DAsyncRefused (a, b) -> Printf.sprintf "asyncrefused %d %d" (int_of_nat a) (int_of_nat b)
+           | _ -> "ok")
       | "LOOPFAIL" -> run (DEv (EvLoopFail (next_nat tk)))
       | "QUIESCE" -> (match enabled_sims stat cur with [] -> "ok" | l -> "enabled " ^ String.concat "," (List.map (fun i -> string_of_int (int_of_nat i)) l))
       | "END" -> Printf.sprintf "alldone=%b" (all_done stat cur)
